@@ -6,10 +6,11 @@ from vlib.case import Out, Sub, rng_from
 
 PROPERTY = "C20"
 TECHNIQUE = ("property-based testing (Hypothesis): defining identities of each EOS by Richardson finite differences; parameter "
-             "recovery from exact-EOS data; QHA on synthetic free energies that are exactly an EOS at every temperature")
+             "recovery from exact-EOS data; pointwise comparison of each named EOS with an independent textbook closed form; QHA on synthetic free "
+             "energies that are exactly that closed form at every temperature")
 RULE = ("EOS parameters E0 in [-50,5] eV, B0 in [0.05,4] eV/A^3, B0' in [2,8], V0 in [5,500] A^3 for vinet | birch_murnaghan | "
         "murnaghan; volume grids of 5..14 points spanning 0.85..1.15 V0 (random spacing); QHA with smooth (also partly convex) "
-        "parameter curves over 6..40 temperatures, pressure 0 | +-(0.5..20) GPa, t_max, electronic energies of shape (V) and "
+        "parameter curves over 6..40 temperatures (uniform, piecewise-uniform and irregular grids), pressure 0 | +-(0.5..20) GPa, t_max, electronic energies of shape (V) and "
         "(T,V); inputs as lists, arrays, read-only arrays; two consecutive runs on the same input arrays. Non-trivial: "
         "T-dependent V0 and B0, >= 3 temperatures, P != 0 or (T,V) electronic term. Distinct by spec hash.")
 ASSUMPTIONS = ["scipy (from the offline wheelhouse, /verif/.deps) performs the least-squares fit; a fit reported as failed is class rejected"]
